@@ -536,8 +536,18 @@ def prog_case(prog, rd, dg):
             emit(12, [])
         elif kind == "sign_write":
             emit(13, list(op["keys"]))
-        elif kind in ("load", "files"):
-            pass
+        elif kind in ("load", "files", "role_holder"):
+            pass        # role_holder: the holder's part is folded into the model's update operation below
+        elif kind == "update_delegated_targets":
+            # the holder's editing and signing (role_holder, on the repository as published) and the owner's
+            # update_delegated_targets are one operation of the model; the tree must not have changed in between
+            j = int(op["dir"][1:]) if str(op.get("dir", "")).startswith("@") else None
+            h = prog[j] if j is not None and j < k and prog[j]["op"] == "role_holder" else None
+            if h is None or h["role"] != op["name"] or any(p["op"] not in ("from_repo", "load", "files") for p in prog[j + 1:k]):
+                covered = False
+            else:
+                adds = [[C.enc(a["name"]), len(a["content"].encode()), dg.of_bytes(a["content"].encode())] for a in h["add"]]
+                emit(14, [C.enc(op["name"]), adds, h["version"], z_tree(h["expires"]), list(h["keys"])])
         else:
             covered = False
         where.append(mine if covered else None)
